@@ -1,4 +1,5 @@
-\* the full matrix: 72 methods x 10 credential classes x authentication on/off = 1440 cells
+\* the full matrix: 72 methods x (9 token classes x 5 presentation forms + no credentials x 2 content types)
+\* x authentication on/off = 6768 cells
 SPECIFICATION Spec
 CONSTANTS
   Emit = TRUE
@@ -8,6 +9,7 @@ INVARIANTS
   Lattice
   NoTokenOnlyPublic
   BadTokensGrantNothing
+  MalformedPresentationGrantsNothing
   SensitiveProtected
   Exact
   AuthOffOpensAll
